@@ -36,9 +36,14 @@ def check_history(line, toks):
     else:
         ty = f[1]; key = b''; steps = f[2:]
         hf, bs, outlen = o.digest_fn(ty)
-        fn = lambda k, m: hf(m)
+        if ty.startswith('blake2b:'):
+            fn = lambda k, m, n=outlen: o.blake2b(n, k, m)       # the legacy BLAKE2 objects can be re-keyed in place
+        elif ty.startswith('blake2s:'):
+            fn = lambda k, m, n=outlen: o.blake2s(n, k, m)
+        else:
+            fn = lambda k, m: hf(m)
         name = 'digest'
-    objs = {0: {'b': b'', 'fin': False, 'last': None, 'after_reset': False}}
+    objs = {0: {'b': b'', 'fin': False, 'last': None, 'after_reset': False, 'key': key, 'unsure': False}}
     viol, cov = [], []
     ti = 0
 
@@ -53,6 +58,12 @@ def check_history(line, toks):
         st = objs[ob]
         if p[0] == 'i':
             d = expand(p[2])
+            if st['unsure'] and not st['fin']:
+                # after a refused result the object may be finalised (input panics) or open (input accepted)
+                t = toks[ti] if ti < len(toks) else None
+                if t == 'PANIC':
+                    return viol, cov
+                st['unsure'] = False
             if st['fin']:
                 # must fail loudly: the next token must be PANIC and the history ends there
                 t = toks[ti] if ti < len(toks) else None
@@ -62,10 +73,10 @@ def check_history(line, toks):
                 return viol, cov
             st['b'] += d
             cov.append('input:%s' % ('empty' if not d else ('aligned' if len(st['b']) % 16 == 0 else 'unaligned')))
-        elif p[0] in ('r', 'rr'):
+        elif p[0] in ('r', 'rr', 'rrc', 'rc'):
             t = tok()
-            want = fn(key, st['b'])
-            if p[0] == 'rr' or (f[0] == 'dig' and len(p) > 2):
+            want = fn(st['key'], st['b'])
+            if p[0] in ('rr', 'rrc', 'rc') or (f[0] == 'dig' and len(p) > 2):
                 n = int(p[2])
                 if ty == 'poly1305':
                     ok_shape = n >= 16
@@ -77,8 +88,23 @@ def check_history(line, toks):
                     cov.append('result:bad-buffer')
                     if t != 'PANIC':
                         viol.append(('bad-buffer-accepted', 'result into a %d-byte buffer returned %s instead of failing' % (n, t)))
+                        return viol, cov
+                    if p[0] in ('rrc', 'rc'):
+                        # the refusal was caught and the object is used again: it may consider itself finalised or still open, but it
+                        # must never return anything else than the MAC / digest of the bytes fed since the last reset
+                        cov.append('result:bad-buffer:object-reused')
+                        st['unsure'] = True
+                        continue
                     return viol, cov
                 want = want_buf
+            if st['unsure'] and not st['fin']:
+                if t == 'PANIC':
+                    return viol, cov
+                if t != (want.hex() or '-'):
+                    viol.append(('wrong-value-after-refused-result', 'step %s after a refused result(): expected %s (or a panic) got %s (message length %d)' % (s, want.hex(), t, len(st['b']))))
+                    return viol, cov
+                st['fin'] = True; st['last'] = t
+                continue
             if not st['fin']:
                 cov.append('result:first:%s%s' % ('len%16==0' if len(st['b']) % 16 == 0 else 'len%16!=0', ':after-reset' if st['after_reset'] else ''))
                 if t == 'PANIC':
@@ -96,8 +122,15 @@ def check_history(line, toks):
                 if t != st['last']:
                     viol.append(('silent-second-result', 'second result() returned %s, first returned %s (message length %d)' % (t, st['last'], len(st['b']))))
         elif p[0] == 'x':
-            st['b'] = b''; st['fin'] = False; st['last'] = None; st['after_reset'] = True
+            st['b'] = b''; st['fin'] = False; st['last'] = None; st['after_reset'] = True; st['unsure'] = False
             cov.append('reset')
+        elif p[0] == 'xi':
+            # the type's own reset(): a plain (unkeyed) object from now on, also for later trait resets
+            st['b'] = b''; st['fin'] = False; st['last'] = None; st['after_reset'] = True; st['unsure'] = False; st['key'] = b''
+            cov.append('reset:inherent')
+        elif p[0] == 'xk':
+            st['b'] = b''; st['fin'] = False; st['last'] = None; st['after_reset'] = True; st['unsure'] = False; st['key'] = expand(p[2])
+            cov.append('reset:inherent-with-key:%s' % ('empty' if not st['key'] else 'nonempty'))
         elif p[0] == 'c':
             objs[int(p[2])] = dict(st)
             cov.append('clone:%s' % ('fin' if st['fin'] else 'open'))
